@@ -62,7 +62,11 @@ func arrElemPool(k arrKind, rng *Rng) uint64 {
 	}
 	if k.float {
 		var f64 []float64 = []float64{0, math.Copysign(0, -1), 1, -1, 1.5, -2.25, 0.1, 255, 256, 65536, 1e10, -1e-10, 3.0e38, 1e-40, 5e-324, 1.7976931348623157e308,
-			math.Inf(1), math.Inf(-1), math.NaN(), math.Float64frombits(0x7ff0000000000001), 123456789, 0.5, 1.0 / 3, 16777216, 16777217, 100, -100, 1e-45}
+			math.Inf(1), math.Inf(-1), math.NaN(), math.Float64frombits(0x7ff0000000000001), 123456789, 0.5, 1.0 / 3, 16777216, 16777217, 100, -100, 1e-45,
+			// whole numbers around the int64 and uint64 boundaries (integer shortcuts of the writers)
+			9223372036854775808, -9223372036854775808, 9223372036854774784, 18446744073709551616, 4611686018427387904, 9007199254740992, -9223372036854777856, 1e19, 1e20,
+			// binary exponents that are multiples of 100
+			0x1p100, 0x1.8p-100, -0x1p200, 0x1p-1000, 0x1p1000, 0x1p-10, 0x1p10}
 		v := f64[rng.Intn(len(f64))]
 		if rng.P(1, 3) {
 			v = math.Float64frombits(rng.Next())
